@@ -27,7 +27,7 @@ def run(ctx):
     if not quick:
         for mode in ("overlap", "onlyonce"):
             brokerop_lib.run(ctx, "plain", mode, nopts=3, pubqos=(0, 1), timeout=3000)
-    scs = scen.c07_retained(rng, "s%d" % ctx.seed, 100 if quick else 1500)
+    scs = scen.with_props(rng, scen.c07_retained(rng, "s%d" % ctx.seed, 100 if quick else 1500))   # kept and replayed with their properties
     rejected, stats = trace_lib.validate(ctx, scs, "c07", invariants=INV)
     ctx.cov["traces_validated_against_impl"] += stats["validated"] + stats["rejected"]
     ctx.cov["evaluations"] += stats["events"]
